@@ -338,6 +338,42 @@ pub fn c20(thorough: bool, _replay: Option<String>) -> i32 {
                 }
             }
         }
+        // the library entry point (compile_clvm_text: always optimising, classic post-optimiser on top) for
+        // every sigil, with the constant operands spelled as decimal literals, as hex literals, and produced by
+        // a constant sub-expression - the three forms reach different constant folders
+        for sig in crate::gen::SIGILS {
+            let hexlit = |t: &T| -> String {
+                match t {
+                    T::A(v) if !v.is_empty() => format!("0x{}", hex::encode(v)),
+                    _ => lit(t),
+                }
+            };
+            let sublit = |t: &T| -> String {
+                match t {
+                    T::A(v) if !v.is_empty() => format!("(concat 0x{})", hex::encode(v)),
+                    _ => lit(t),
+                }
+            };
+            let dn = crate::progmc::short_sigil(sig);
+            let forms: Vec<(&str, String, T)> = vec![
+                ("const", format!("(mod () (include {}) ({} {}))", sig, name, args.iter().map(lit).collect::<Vec<_>>().join(" ")), T::nil()),
+                ("hexconst", format!("(mod () (include {}) ({} {}))", sig, name, args.iter().map(hexlit).collect::<Vec<_>>().join(" ")), T::nil()),
+                ("subexprconst", format!("(mod () (include {}) ({} {}))", sig, name, args.iter().map(sublit).collect::<Vec<_>>().join(" ")), T::nil()),
+                ("param", format!("(mod ({}) (include {}) ({} {}))", argnames.join(" "), sig, name, argnames.join(" ")), env.clone()),
+            ];
+            for (kind, src, e) in forms {
+                let got = match library_compile(&src, &[], true) {
+                    Ok(c) => consensus(&c.code, &e),
+                    Err(e) => Out::Err(format!("compile error: {}", e.msg())),
+                };
+                // known: strict-cl-21 under optimisation (C01's finding F14) - the operator tables are not the subject there
+                if sig == "*strict-cl-21*" && got != Out::Val(v.clone()) {
+                    st.outcome("library-strict21(C01 finding F14, no table claim)");
+                    continue;
+                }
+                check(&mut st, &format!("library-{}-{}", dn, kind), got);
+            }
+        }
         // classic compiler (library entry point, no sigil)
         let src_const = format!("(mod () ({} {}))", name, args.iter().map(lit).collect::<Vec<_>>().join(" "));
         let src_param = format!("(mod ({}) ({} {}))", argnames.join(" "), name, argnames.join(" "));
